@@ -413,9 +413,26 @@ func init() {
 				if w.expr(callArgs(r)[1]) != "mem.recheckCursor" {
 					continue
 				}
+				isAdvance := func(call ssa.CallInstruction) bool {
+					return w.isCall(call, "libs/clist#CElement.Next") && strings.HasSuffix(w.expr(callRecv(call)), ".recheckCursor")
+				}
 				q := &pathQ{target: func(in ssa.Instruction) bool {
 					call, ok := in.(ssa.CallInstruction)
-					return ok && w.isCall(call, "libs/clist#CElement.Next") && w.expr(callRecv(call)) == "mem.recheckCursor"
+					if !ok {
+						return false
+					}
+					if isAdvance(call) {
+						return true
+					}
+					// the advance moved into a helper of the mempool introduced later
+					if h := staticCallee(call); h != nil && isNewFunc(h) {
+						for _, hc := range callInstrs(h) {
+							if isAdvance(hc) {
+								return true
+							}
+						}
+					}
+					return false
 				}}
 				idx := 0
 				for i, in := range r.Block().Instrs {
